@@ -317,6 +317,7 @@ def conclude(mod, total: Ctx, tier: str, seed: int, nchunks: int, wall: float) -
         "anomalies": dict(total.anomalies),
         "inconclusive_reasons": inconclusive[:10],
     }
+    coverage["witness_counts_by_mechanism"] = wc
     for k, v in total.extra.items():
         if k != "witness_counts":
             coverage.setdefault(k, v)
@@ -340,6 +341,8 @@ def conclude(mod, total: Ctx, tier: str, seed: int, nchunks: int, wall: float) -
         f"distinct={len(total.distinct)} classes={len(total.classes)} wall={wall:.1f}s"
     )
     if viol:
+        for r in inconclusive[:5]:
+            print(f"INCONCLUSIVE-PART: {r[:300]}", file=sys.stderr)
         for w, p in zip(viol, replay_paths):
             print(f"  witness key={w['key']}: {w['desc'][:300]}")
         for p in replay_paths[:1]:
